@@ -107,17 +107,19 @@ def g_wide(r, n):
 
 
 def g_neartwins(r, n):
-    """distinct points closer than 2^-40 (1e-12 is 2^-39.9) next to coarse ones: the tree has to separate them (depth ~50),
-    nothing may be merged as if it were a coincident point"""
+    """distinct points 2^-41..2^-48 of the coordinate scale apart, next to coarse ones: the tree has to separate them
+    (depth ~50), nothing may be merged as if it were a coincident point.  Scale 1 and 2^8: the gap is below 1e-12 in
+    absolute terms; scale 2^13, 2^20: the same relative gap (a few ulps) is above it"""
+    S = 1 << r.choice([0, 0, 8, 13, 20])
     m = max(1, n - r.range(1, 3))
-    base = [(dy(r.range(-15, 15), -3), dy(r.range(-15, 15), -3)) for _ in range(m)]
+    base = [(S * dy(r.range(-15, 15), -3), S * dy(r.range(-15, 15), -3)) for _ in range(m)]
     out = list(base)
     while len(out) < max(n, m + 1):
         b = r.choice(base)
-        ox = r.choice([-1, 0, 1]) * dy(1, -r.range(41, 48))
-        oy = r.choice([-1, 0, 1]) * dy(1, -r.range(41, 48))
+        ox = S * r.choice([-1, 0, 1]) * dy(1, -r.range(41, 48))
+        oy = S * r.choice([-1, 0, 1]) * dy(1, -r.range(41, 48))
         if ox == 0 and oy == 0:
-            ox = dy(1, -r.range(41, 48))
+            ox = S * dy(1, -r.range(41, 48))
         out.append((b[0] + ox, b[1] + oy))
     return r.shuffle(out)
 
